@@ -189,7 +189,7 @@ pub fn mtu() -> BoxedStrategy<(u16, u16, u16)> {
 
 pub fn endpoint(cfg: GenCfg) -> BoxedStrategy<EndpointCfg> {
     (limits(cfg), prop_oneof![3 => Just(Cc::Cubic), 1 => Just(Cc::Bbr)], mtu())
-        .prop_map(|(limits, cc, mtu)| EndpointCfg { limits, cc, mtu, cid: CidCfg::default() })
+        .prop_map(|(limits, cc, mtu)| EndpointCfg { limits, cc, mtu, cid: CidCfg::default(), datagram: false })
         .boxed()
 }
 
@@ -233,7 +233,7 @@ pub fn net(cfg: GenCfg) -> BoxedStrategy<NetCfg> {
 
 pub fn scenario(cfg: GenCfg) -> BoxedStrategy<Scenario> {
     let client = (endpoint(cfg), prop::collection::vec(stream(cfg), 1..=cfg.max_streams), prop_oneof![Just(None), (0u32..100).prop_map(Some)])
-        .prop_map(|(endpoint, streams, close_code)| ClientCfg { endpoint, conn: ConnScript { streams, close_code } });
+        .prop_map(|(endpoint, streams, close_code)| ClientCfg { endpoint, conn: ConnScript { streams, close_code, datagrams: vec![] } });
     (any::<u64>(), endpoint(cfg), prop::collection::vec(client, 1..=cfg.max_clients), net(cfg))
         .prop_map(move |(seed, server, clients, net)| Scenario { seed, server, clients, net, cap_ms: cfg.cap_ms, strays: vec![], stateless_reset: false, rebinds: vec![], attacks: vec![], evil: None, tp: None })
         .boxed()
